@@ -125,6 +125,21 @@ def extract(repo):
         return out
     out["unary"] = {"prefix": sorted(re.findall(r'TokenType::(TOK_\w+)', pre[0].group(1))), "prefix_operand": pre[0].group(2),
                     "incdec_operand": inc[0].group(2), "fallthrough": mlast[-1]}
+    # parsePrimary: the two look-aheads (absent guard -> empty list / False, so the obligation that names
+    # them breaks; this is not an "unrecognised shape")
+    try:
+        pp = _strip_comments(open(os.path.join(repo, "src/frontend/recursive_parser/parsers/primary_expression_parser.cpp"),
+                                  encoding="utf-8", errors="replace").read())
+    except OSError:
+        pp = ""
+    stops = []
+    mg = re.search(r'bool is_function_call = false;\s*while \(depth > 0 && !parser_->isAtEnd\(\)\) \{\s*'
+                   r'if \(((?:[^{}])*?)\)\s*\{\s*break;\s*\}', pp)
+    if mg:
+        stops = sorted(re.findall(r'TokenType::(TOK_\w+)', mg.group(1)))
+    out["generic_stops"] = stops
+    out["cast_guard"] = bool(re.search(r'if \(!may_be_type\)\s*\{\s*throw', pp)) and \
+        bool(re.search(r'may_be_type\s*=\s*parser_->typedef_map_\.count\(id\)', pp))
     out["recognised"] = True
     return out
 
@@ -158,6 +173,10 @@ def render(info):
         'Definition ladder_unary_prefix : list string := [%s].' % "; ".join('"%s"' % x for x in info["unary"]["prefix"]),
         'Definition ladder_unary_calls : list string := ["%s"; "%s"; "%s"].' % (
             info["unary"]["prefix_operand"], info["unary"]["incdec_operand"], info["unary"]["fallthrough"]),
+        "(* parsePrimary: tokens at which the generic-call look-ahead gives up; is `( identifier` tried as a type",
+        "   only when the identifier names a type *)",
+        'Definition ladder_generic_stops : list string := [%s].' % "; ".join('"%s"' % x for x in info.get("generic_stops", [])),
+        'Definition ladder_cast_guard : bool := %s.' % ("true" if info.get("cast_guard") else "false"),
         "",
     ]
     return "\n".join(lines)
